@@ -72,7 +72,7 @@ def _run_harness(ctx, binp, cases, label, seed):
     inp = os.path.join(ctx.work, "gossip-in-%s.json" % label)
     outp = os.path.join(ctx.work, "gossip-out-%s.ndjson" % label)
     with open(inp, "w") as f:
-        json.dump({"cases": cases, "maxround": 2, "nparts": 2, "maxrounds": 300, "wait_ms": 60000, "seed": seed}, f)
+        json.dump({"cases": cases, "maxround": 2, "nparts": 2, "maxrounds": 100, "wait_ms": 60000, "seed": seed}, f)
     rc, txt = ctx.run_test(binp, "^TestVerifGossip$", {"VERIF_IN": inp, "VERIF_OUT": outp}, timeout=3000, label="gossip_" + label)
     if rc != 0:
         ctx.save_log("harness-" + label, txt)
@@ -124,6 +124,49 @@ def _verdict(ctx, v, verdict):
         verdict.add(sig, {"failing_step": row, "prefix": x["prefix"], "tlc": {"inv": x["inv"], "class": x["class"]}})
 
 
+def _witness(r, by_key):
+    """a TLC counterexample of a weakened spec as a schedule: the situation it starts in and the order of routine
+    iterations / environment moves (the picks inside an iteration are the real code's own)"""
+    if not r.violations or not r.violations[0]["trace"]:
+        return None
+    acts = [to_json(st["act"]) for _h, st in r.violations[0]["trace"] if "act" in st]
+    if not acts or acts[0].get("name") != "Init":
+        return None
+    key = json.dumps([acts[0]["node"], acts[0]["peer"], acts[0]["mode"]], sort_keys=True)
+    if key not in by_key:
+        return None
+    return by_key[key], [a["name"] for a in acts[1:] if a["name"] in ROUTINES + ENVS]
+
+
+def _impl(ctx, quick, rng, f_build, witness_runs=()):
+    """steps 3 and 4: situations from TLC -> runs on the real reactor -> TLC judges the traces"""
+    r_cases, cs = _load_cases(ctx, "GOSSIP_cases.cfg" if quick else "GOSSIP_cases_full.cfg", "q" if quick else "full")
+    r_nv, cs_nv = _load_cases(ctx, "GOSSIP_cases_nv.cfg", "nv")
+    key = lambda c: json.dumps([c["node"], c["peer"], c["mode"]], sort_keys=True)
+    have = set(key(c) for c in cs)
+    cs = cs + [c for c in cs_nv if key(c) not in have]
+    by_key = {key(c): c for c in cs}
+    cases = []
+    for c in cs:                                   # every situation, fair rounds until rest
+        cont = 3 if c["dh"] >= 1 and rng.random() < (0.3 if quick else 0.5) else 0
+        # every other situation starts with the peer claiming a majority it holds (the node must answer with VoteSetBits)
+        cases.append(_case(len(cases), c, ["peerclaim"] if len(cases) % 2 else [], cont))
+    nwit = 0
+    for name, r in witness_runs:                   # counterexamples of the weakened specs / un-exempted gaps as schedules
+        wt = _witness(r, by_key)
+        if wt is not None:
+            cases.append(_case(len(cases), wt[0], wt[1], 0))
+            nwit += 1
+    nsched = 160 if quick else 1500
+    for _ in range(nsched):                        # seeded interleavings with environment moves
+        c = rng.choice(cs)
+        cases.append(_case(len(cases), c, _sched(rng, rng.randint(3, 28), 2), 2 if rng.random() < 0.2 else 0))
+    binp = f_build.result()
+    rows, runs = _execute(ctx, binp, cases, "main", ctx.seed)
+    v = core.validate_traces(ctx, "TMGossipTrace", rows, max_events=2500, timeout=1800, label="gossip")
+    return r_cases, cs, cases, nsched, rows, runs, v
+
+
 def run(ctx):
     quick = ctx.tier == "quick"
     rng = random.Random(ctx.seed)
@@ -131,31 +174,24 @@ def run(ctx):
     f_build = pool.submit(ctx.go_build_test, "consensus", ["zz_verif_gossip_test.go"])
 
     # ---- 1. design spec, exhaustive --------------------------------------------------------------
+    # GOSSIP_SKIP_MC=1 (development aid for mutation experiments): the two long exhaustive runs are replaced by the
+    # smallest menus; the evidence says so
+    skip_mc = os.environ.get("GOSSIP_SKIP_MC") == "1"
     w = max(1, min(ctx.cores, 6))
-    f_sys = pool.submit(ctx.tlc, "GOSSIP_sys", "GOSSIP_sys.cfg" if quick else "GOSSIP_sys_full.cfg", must_pass=True,
-                        timeout=900 if quick else 3000, workers=w, heap="6g", label="sys")
-    f_live = pool.submit(ctx.tlc, "GOSSIP_sys", "GOSSIP_live_q.cfg" if quick else "GOSSIP_live.cfg", must_pass=True,
+    f_sys = pool.submit(ctx.tlc, "GOSSIP_sys", "GOSSIP_gap_none.cfg" if skip_mc else "GOSSIP_sys.cfg" if quick else "GOSSIP_sys_full.cfg",
+                        must_pass=True, timeout=900 if quick else 3000, workers=w, heap="6g", label="sys")
+    f_live = pool.submit(ctx.tlc, "GOSSIP_sys", "GOSSIP_live_q.cfg" if quick or skip_mc else "GOSSIP_live.cfg", must_pass=True,
                          timeout=900 if quick else 2400, workers=2, label="live")
     # ---- 2. non-vacuity ----------------------------------------------------------------------------
     f_weak = [(k, pool.submit(ctx.tlc, "GOSSIP_sys", "GOSSIP_weak_%s.cfg" % k, timeout=600, workers=2, label="weak_" + k)) for k in WEAK]
     f_gap = [(g, pool.submit(ctx.tlc, "GOSSIP_sys", "GOSSIP_gap_%s.cfg" % g, timeout=600, workers=2, label="gap_" + g)) for g in GAPS]
     f_lw = None if quick else pool.submit(ctx.tlc, "GOSSIP_sys", "GOSSIP_live_weak.cfg", timeout=1800, workers=2, label="live_weak")
 
-    # ---- 3. situations from TLC -> runs on the real reactor ------------------------------------------
-    r_cases, cs = _load_cases(ctx, "GOSSIP_cases.cfg" if quick else "GOSSIP_cases_full.cfg", "q" if quick else "full")
-    cases = []
-    for c in cs:                                   # every situation, fair rounds until rest
-        cont = 3 if c["dh"] >= 1 and rng.random() < (0.3 if quick else 0.5) else 0
-        cases.append(_case(len(cases), c, [], cont))
-    nsched = 160 if quick else 2500
-    for _ in range(nsched):                        # seeded interleavings with environment moves
-        c = rng.choice(cs)
-        cases.append(_case(len(cases), c, _sched(rng, rng.randint(3, 28), 2), 2 if rng.random() < 0.2 else 0))
-    binp = f_build.result()
-    rows, runs = _execute(ctx, binp, cases, "main", ctx.seed)
-
-    # ---- 4. trace validation ---------------------------------------------------------------------------
-    v = core.validate_traces(ctx, "TMGossipTrace", rows, max_events=2500, timeout=1800, label="gossip")
+    # ---- 3./4. situations from TLC -> runs on the real reactor -> trace validation -----------------------
+    # the counterexamples of the weakened specs are replayed too: on correct code they are uneventful, on code with the
+    # corresponding regression they lead to the violation
+    wit = [("weak_" + k, f.result()) for k, f in f_weak] + [("gap_" + g, f.result()) for g, f in f_gap]
+    r_cases, cs, cases, nsched, rows, runs, v = _impl(ctx, quick, rng, f_build, wit)
 
     # ---- 5. collect the model-checking results ------------------------------------------------------------
     r_sys = f_sys.result()
@@ -212,7 +248,8 @@ def run(ctx):
                 "party vote, peer claim).  A sending iteration is distinct by (routine, message kind, height and round relative to the peer "
                 "state, vote type, peer step)" % (len(cs), nsched),
         "samples": [core.abridge([{k: r[k] for k in r if k not in ("n", "x", "nscript", "pscript")} for r in sample_run], 14)],
-        "exhaustive": True,
+        "exhaustive": not skip_mc,
+        "design_model_checked_on_full_menus": not skip_mc,
         "tlc_runs": ctx.tlc_stats,
         "situations_replayed": len(sit),
         "runs": len(runs),
